@@ -123,8 +123,8 @@ AdaptChecks(e) ==
                MinSeq([k \in 1..(Len(e.forms) * n) |-> LET f == ((k - 1) \div n) + 1  i == ((k - 1) % n) + 1
                                                       IN SameBits(Fx3(e.forms[f][i]), Fx3(e.fwd[i]))])),
              B("adapt.back", okb(e.back) /\ okb(e.backo), Min2i(BackBits(e.back), BackBits(e.backo))) >>
-          \o (IF new THEN << B(IF same THEN "adapt.ident" ELSE "adapt.mat", Fin9(e.mat) /\ Fin9(e.matd),
-                               Min2i(SeqBits(Fx9(e.mat), A, sc), SeqBits(Fx9(e.matd), A, sc))),
+          \o (IF new THEN << B(IF same THEN "adapt.ident" ELSE "adapt.mat", Fin9(e.mat) /\ Fin9(e.matd) /\ Fin9(e.matds),
+                               Min3i(SeqBits(Fx9(e.mat), A, sc), SeqBits(Fx9(e.matd), A, sc), SeqBits(Fx9(e.matds), A, sc))),
                              B("adapt.new=old", Fin9(e.mat) /\ Fin9(e.old), SeqBits(Fx9(e.mat), Fx9(e.old), sc)),
                              B("adapt.back", okb(e.backf), BackBits(e.backf)) >>
               ELSE <<>>)
